@@ -22,7 +22,7 @@ func init() {
 			"C05.6 the stream framer's size arithmetic cannot wrap (shared rule C09.1 on the framing functions); " +
 			"C05.8 (=C09.3/C10.1p) the stream de-framer returns exactly the bytes it buffered for the frame and advances its own buffer by that amount; " +
 			"C05.7 the client writes the complete encoded ChannelData (header, payload, padding) of a literal built from the caller's payload and channel number; " +
-			"C05.9 a receive loop's reused buffer does not outlive the iteration: no alias of it is handed to a goroutine, sent on a channel or captured. C05.10 (=C07.10) the ChannelData path and the relay loop refuse only for the reasons the property names (closed refusal sets); C05.11 (=C09.12) a deadline armed on a connection is lifted again on every path. C05.12 nobody appends onto a shortened view of bytes it was handed (the relay read buffer is written by the read alone).",
+			"C05.9 a receive loop's reused buffer does not outlive the iteration: no alias of it is handed to a goroutine, sent on a channel or captured. C05.10 (=C07.10) the ChannelData path and the relay loop refuse only for the reasons the property names (closed refusal sets); C05.11 (=C09.12) a deadline armed on a connection is lifted again on every path. C05.12 nobody appends onto a shortened view of bytes it was handed (the relay read buffer is written by the read alone). C05.13 outside package proto ChannelData frames are produced by Encode only (the padded encoder of C11.3).",
 		NotCovered: "exactly-once delivery, byte equality beyond provenance, ChannelData padding arithmetic modulo 4 (see C11), duplication by the network.",
 		Run:        runC05,
 	})
@@ -344,6 +344,7 @@ func runC05(c *Ctx) {
 	ruleChannelPathRefusals(c, "C05.10")
 	ruleDeadlineSites(c, "C05.11")
 	ruleNoAppendOntoCallersBytes(c, "C05.12")
+	ruleOnlyEncodeFrames(c, "C05.13")
 
 	// ---- C05.7 client → server ChannelData is written whole
 	c.Rule("C05.7", "client ChannelData: what (*UDPConn).sendChannelData writes to the server is the complete Raw of a ChannelData literal {Data: the caller's payload, Number: the caller's channel number} on which Encode() was called — not a slice of it (the padding delimits the message on a stream transport, and the client cannot tell the transport from the server address)", 1)
